@@ -103,7 +103,7 @@ class Conc:
                 for n in nodes:
                     if n["k"] == "leaf":
                         self.shape[n["id"]] = rnd.choice(["rect", "rect", "circle", "point"])
-                        self.spell[n["id"]] = rnd.choice(["xy", "xy", "native", "native+dxy"])
+                        self.spell[n["id"]] = rnd.choice(["xy", "xy", "native", "native+dxy", "xy2"])
                         if self.shape[n["id"]] == "point":
                             self.points.add(n["id"])
                     walk(n["ch"])
@@ -137,12 +137,24 @@ class Conc:
             if sh == "circle":
                 return f'<circle {base} cxy="#n{n["ref"]}@r {4 - wt} 0" r="1" data-v="-"/>{nl}'
             size = "" if sh == "point" else (' width="2" height="2"' if n["lit"] else ' wh="2"')
+            if sh == "rect":
+                # the same place written through the far corner or the centre (the reference's
+                # right edge mid-point is at height 1, or 0 for a point)
+                rcy = 0 if wt == 0 else 1
+                sp = self.rnd.choice(["dir", "dir", "xy2", "cxy"])
+                if sp == "xy2":
+                    return f'<rect {base} xy2="#n{n["ref"]}@r {3 - wt + 2} {2 - rcy}"{size} data-v="-"/>{nl}'
+                if sp == "cxy":
+                    return f'<rect {base} cxy="#n{n["ref"]}@r {3 - wt + 1} {1 - rcy}"{size} data-v="-"/>{nl}'
             return f'<{sh} {base} xy="#n{n["ref"]}|h {3 - wt}"{size} data-v="-"/>{nl}'
         if sh == "circle":
             return f'<circle {base} cxy="{X + 1} 1" r="1" data-v="-"/>{nl}'
         if sh == "point":
             return f'<point {base} xy="{X} 0"/>{nl}'
         sp = self.spell[i]
+        if sp == "xy2":
+            size = 'width="2" height="2"' if n["lit"] else 'wh="2"'
+            return f'<rect {base} xy2="{X + 2} 2" {size} data-v="-"/>{nl}'
         if sp == "native":
             return f'<rect {base} x="{X}" y="0" width="2" height="2" data-v="-"/>{nl}'
         if sp == "native+dxy":
